@@ -92,6 +92,22 @@ func c10BaseActs(b c10Base) []SAct {
 				acts = append(acts, SAct{Op: "deliver", F: &FrameSpec{Id: 1, Hdr: "ok:0", Method: mBidi, Src: "src", Dst: "dst", Body: i64(int64(610 + j))}})
 			}
 		}
+	case "ctxover":
+		// a stream whose handler context is over (reset by the peer; with dl: its GRPC-Timeout ran out) while the handler
+		// is still in its body, and the peer keeps sending on it: the first message fits the queue, the next ones find the
+		// handler gone; the handler has NOT returned - Serve has to wait for it all the same
+		if b.ns > 0 {
+			if b.dl {
+				acts = append(acts, SAct{Op: "tick", D: 2000})
+			} else {
+				acts = append(acts, SAct{Op: "deliver", F: &FrameSpec{Id: 1, Hdr: "ok:0", Method: mBidi, Src: "src", Dst: "dst", Rst: "rst"}})
+			}
+			for j := 0; j < 3; j++ {
+				acts = append(acts, SAct{Op: "deliver", F: &FrameSpec{Id: 1, Hdr: "ok:0", Method: mBidi, Src: "src", Dst: "dst", Body: i64(int64(620 + j))}})
+			}
+			// ... and a half-close
+			acts = append(acts, SAct{Op: "deliver", F: &FrameSpec{Id: 1, Hdr: "ok:0", Method: mBidi, Src: "src", Dst: "dst", Status: &[2]int64{0, 0}, Trl: "ok:0"}})
+		}
 	case "gate":
 	}
 	if b.dl {
@@ -257,7 +273,24 @@ func TestC10(t *testing.T) {
 			}
 		}
 	}
+	for ns := 1; ns <= 2; ns++ {
+		for _, trig := range []string{"failread", "wfail", "stop"} {
+			n := len(c10BaseActs(c10Base{dl: true, nu: 1, ns: ns, mode: "ctxover"}))
+			for pos := 0; pos <= n; pos++ {
+				run(c10Base{dl: true, nu: 1, ns: ns, mode: "ctxover", trigger: trig, pos: pos}, "deadline", "ctx-over")
+			}
+		}
+	}
 	specOnly = false
+	// the same with the context ended by a reset of the peer (inside the model)
+	for ns := 1; ns <= 2; ns++ {
+		for _, trig := range []string{"failread", "wfail", "stop", "failread-behind"} {
+			n := len(c10BaseActs(c10Base{nu: 1, ns: ns, mode: "ctxover"}))
+			for pos := 0; pos <= n; pos++ {
+				run(c10Base{nu: 1, ns: ns, mode: "ctxover", trigger: trig, pos: pos}, "ctx-over")
+			}
+		}
+	}
 
 	// the VALUE of the transport's read error: what real transports return (a protobuf decode error, goat's websocket
 	// sentinel, a net timeout, unexpected EOF, EOF; bare and wrapped), persistently and once-then-silence; handlers in
